@@ -559,6 +559,40 @@ fn fam_panics(tag: &str, out: &mut Vec<Case>) {
 }
 
 fn fam_gens(tag: &str, out: &mut Vec<Case>) {
+    // independent recomputation of the documented derivations (sha3 crate directly):
+    //   vector generator j of party i = from_uniform_bytes(SHAKE256("GeneratorsChain" || c || le32(i))[64j .. 64j+64]),  c = 'G' / 'H'
+    //   blinding generator k          = from_uniform_bytes(SHA3-512("RISTRETTO_MASKING_BASEPOINT_" || decimal(k + 1))), k = 0..5,   value generator = Ristretto basepoint
+    let id = format!("{}:gens:derivation", tag);
+    out.push((id, Box::new(move || {
+        use digest::{ExtendableOutput, Update, XofReader, Digest};
+        let chain = |c: u8, party: u32, n: usize| -> Vec<RistrettoPoint> {
+            let mut sh = sha3::Shake256::default();
+            Update::update(&mut sh, b"GeneratorsChain");
+            let mut label = vec![c]; label.extend_from_slice(&party.to_le_bytes());
+            Update::update(&mut sh, &label);
+            let mut rd = sh.finalize_xof();
+            (0..n).map(|_| { let mut b = [0u8; 64]; rd.read(&mut b); RistrettoPoint::from_uniform_bytes(&b) }).collect()
+        };
+        for &(bits, cap) in &[(8usize, 1usize), (4, 4), (64, 2)] {
+            let p = RangeParameters::init(bits, cap, create_pedersen_gens_with_extension_degree(deg(6))).map_err(|e| format!("{:?}", e))?;
+            let g: Vec<_> = p.gi_base_iter().cloned().collect(); let h: Vec<_> = p.hi_base_iter().cloned().collect();
+            for party in 0..cap {
+                let (rg, rh) = (chain(b'G', party as u32, bits), chain(b'H', party as u32, bits));
+                for j in 0..bits {
+                    if g[party * bits + j] != rg[j] { return Err(format!("G generator {} of party {} is not the documented SHAKE256 derivation", j, party)); }
+                    if h[party * bits + j] != rh[j] { return Err(format!("H generator {} of party {} is not the documented SHAKE256 derivation", j, party)); }
+                }
+            }
+            if *p.h_base() != curve25519_dalek::constants::RISTRETTO_BASEPOINT_POINT { return Err("the value generator is not the Ristretto basepoint".into()); }
+            for (k, gk) in p.g_bases().iter().enumerate() {
+                let mut hs = sha3::Sha3_512::new();
+                Digest::update(&mut hs, format!("RISTRETTO_MASKING_BASEPOINT_{}", k + 1).as_bytes());
+                let mut b = [0u8; 64]; b.copy_from_slice(&hs.finalize());
+                if *gk != RistrettoPoint::from_uniform_bytes(&b) { return Err(format!("blinding generator {} is not the documented SHA3-512 derivation", k)); }
+            }
+        }
+        Ok(())
+    })));
     let id = format!("{}:gens", tag);
     out.push((id, Box::new(move || {
         for &(bits, cap) in &[(4usize, 1usize), (4, 4), (8, 2), (64, 2)] {
